@@ -621,6 +621,11 @@ pub fn run(chunks: &[&[u8]], cfg: &Cfg) -> RunOut {
 /// `poke_after_error`: after a failing call, call `write(b"x")` again (expected to panic) and
 /// record whether the sink was touched (for C12).
 pub fn run_ext(chunks: &[&[u8]], cfg: &Cfg, poke_after_error: bool) -> RunOut {
+    run_with(chunks, cfg, poke_after_error, &mut |_| {})
+}
+
+/// `between(i)` is called before write #i (used to interleave threads).
+pub fn run_with(chunks: &[&[u8]], cfg: &Cfg, poke_after_error: bool, between: &mut dyn FnMut(usize)) -> RunOut {
     let sh: Sh = Rc::new(RefCell::new(Shared { fail_at: cfg.fail_at, ..Default::default() }));
     let sh_outer = sh.clone();
     let mut out_after_write = vec![];
@@ -631,6 +636,7 @@ pub fn run_ext(chunks: &[&[u8]], cfg: &Cfg, poke_after_error: bool) -> RunOut {
         let settings = build_settings(cfg, &sh).map_err(ErrKind::Handler)?;
         let mut rw = HtmlRewriter::new(settings, LogSink(sh.clone()));
         for (i, c) in chunks.iter().enumerate() {
+            between(i);
             match rw.write(c) {
                 Ok(()) => {
                     out_after_write.push(sh.borrow().out_len);
